@@ -12,8 +12,17 @@ import PyPhysim.Model.C13
 `log10 = Real.logb 10`, `pow10 x = 10 ^ x` (real power).  All other structure
 (`+ - * /`, literals, order) resolves to Mathlib's instances on `ℝ`.
 -/
+set_option linter.unnecessarySeqFocus false
+set_option linter.unusedTactic false
+set_option linter.unreachableTactic false
 namespace PyPhysim.C13
 open PyPhysim.Proto
+
+/-- closes `generated formula = normal form` goals; tolerant of re-association /
+    commutation in the source expression -/
+macro "gen_nf" : tactic =>
+  `(tactic| first | (norm_num; done) | (push_cast; ring) | (congr 1; push_cast; ring)
+                  | (congr 2; push_cast; ring))
 
 noncomputable instance : Transc ℝ := ⟨Real.logb 10, fun x => (10 : ℝ) ^ x⟩
 
@@ -40,10 +49,10 @@ example : Gen.generalDb (2 : ℝ) 3 10 = 23 := by
 /-! ## dB conversions -/
 
 theorem dB2Linear_real (x : ℝ) : Gen.dB2Linear x = (10 : ℝ) ^ (x / 10) := by
-  simp only [Gen.dB2Linear, pow10_real]; norm_num
+  simp only [Gen.dB2Linear, pow10_real] <;> gen_nf
 
 theorem linear2dB_real (x : ℝ) : Gen.linear2dB x = 10 * Real.logb 10 x := by
-  simp only [Gen.linear2dB, log10_real]; norm_num
+  simp only [Gen.linear2dB, log10_real] <;> gen_nf
 
 theorem linear2dB_dB2Linear (x : ℝ) : Gen.linear2dB (Gen.dB2Linear x) = x := by
   rw [dB2Linear_real, linear2dB_real, log10_pow10]; ring
@@ -68,10 +77,10 @@ theorem dB2Linear_mono {x y : ℝ} (h : x ≤ y) : Gen.dB2Linear x ≤ Gen.dB2Li
 /-! ## PathLossGeneral family -/
 
 theorem generalDb_real (n C d : ℝ) : Gen.generalDb n C d = 10 * n * Real.logb 10 d + C := by
-  simp only [Gen.generalDb, log10_real]; norm_num
+  simp only [Gen.generalDb, log10_real] <;> gen_nf
 
 theorem generalWhichDb_real (n C p : ℝ) : Gen.generalWhichDb n C p = (10 : ℝ) ^ ((p - C) / (10 * n)) := by
-  simp only [Gen.generalWhichDb, pow10_real]; norm_num
+  simp only [Gen.generalWhichDb, pow10_real] <;> gen_nf
 
 theorem generalDb_mono {n C d₁ d₂ : ℝ} (hn : 0 ≤ n) (h₁ : 0 < d₁) (h : d₁ ≤ d₂) :
     Gen.generalDb n C d₁ ≤ Gen.generalDb n C d₂ := by
